@@ -51,11 +51,13 @@ struct AllTuple<FailPolicy::FirstFail, OutputValue, OutputError, InputCore> {
 
   template <std::size_t Index, typename Result>
   void Consume(Result&& result) {
-    if (!result && !_done.load(std::memory_order_relaxed) && !_done.exchange(true, std::memory_order_acq_rel)) {
-      if (result.State() == ResultState::Error) {
-        std::move(_p).Set(std::forward<Result>(result).Error());
-      } else {
-        std::move(_p).Set(std::forward<Result>(result).Exception());
+    if (!result) {
+      if (!_done.load(std::memory_order_relaxed) && !_done.exchange(true, std::memory_order_acq_rel)) {
+        if (result.State() == ResultState::Error) {
+          std::move(_p).Set(std::forward<Result>(result).Error());
+        } else {
+          std::move(_p).Set(std::forward<Result>(result).Exception());
+        }
       }
     } else {
       std::get<Index>(_tuple) = std::forward<Result>(result).Value();
